@@ -104,10 +104,6 @@ func (rb *RowBlock) Populate(ctx context.Context, eds eds.Accessor) error {
 
 func (rb *RowBlock) UnmarshalFn(root *share.AxisRoots) UnmarshalFn {
 	return func(cntrData, idData []byte) error {
-		if !rb.Container.IsEmpty() {
-			return nil
-		}
-
 		rid, err := shwap.RowIDFromBinary(idData)
 		if err != nil {
 			return fmt.Errorf("unmarhaling RowID: %w", err)
@@ -131,7 +127,11 @@ func (rb *RowBlock) UnmarshalFn(root *share.AxisRoots) UnmarshalFn {
 			return fmt.Errorf("validating Row for %+v: %w", rb.ID, err)
 		}
 
-		rb.Container = cntr
+		// every body is verified, also when the Block is already populated: the hasher must
+		// never accept unverified bytes. The container populated first is kept.
+		if rb.Container.IsEmpty() {
+			rb.Container = cntr
+		}
 		return nil
 	}
 }
